@@ -24,11 +24,6 @@ func (node *FilterNode) isHeadersQualified(
 		return true
 	}
 
-	if flow.IsUserFlow() && len(node.filterRequirements.headers) == 0 {
-		log.Trace().Msgf("Headers not specified on Flow: %s", flow.GetName())
-		return true
-	}
-
 	flowFilter := flow.GetFilter()
 
 	if len(flowFilter.GetAllowedHeaders()) == 0 {
@@ -53,11 +48,6 @@ func (node *FilterNode) isStatusCodeQualified(
 	flow internaltypes.FlowI,
 	APIStream publictypes.APIStreamI,
 ) bool {
-	if flow.IsUserFlow() && len(node.filterRequirements.statusCodes) == 0 {
-		log.Trace().Msgf("Status code not specified for %s", flow.GetName())
-		return true
-	}
-
 	if APIStream.GetType().IsRequestType() {
 		return true
 	}
@@ -84,14 +74,15 @@ func (node *FilterNode) isMethodQualified(
 	flow internaltypes.FlowI,
 	APIStream publictypes.APIStreamI,
 ) bool {
-	if flow.IsUserFlow() && len(node.filterRequirements.methods) == 0 {
+	flowFilter := flow.GetFilter()
+
+	allowedMethods := flowFilter.GetAllowedMethods()
+	if len(allowedMethods) == 0 {
 		log.Trace().Msgf("Method not specified on Flow: %s", flow.GetName())
 		return true
 	}
 
-	flowFilter := flow.GetFilter()
-
-	for _, method := range flowFilter.GetSupportedMethods() {
+	for _, method := range allowedMethods {
 		if method == APIStream.GetMethod() {
 			log.Trace().Msgf("Method qualified for Flow: %s", flow.GetName())
 			return true
@@ -110,11 +101,6 @@ func (node *FilterNode) isQueryParamsQualified(
 		return true
 	}
 
-	if flow.IsUserFlow() && len(node.filterRequirements.queryParams) == 0 {
-		log.Trace().Msgf("Query params not specified")
-		return true
-	}
-
 	flowFilter := flow.GetFilter()
 
 	for _, data := range flowFilter.GetAllowedQueryParams() {
@@ -123,7 +109,7 @@ func (node *FilterNode) isQueryParamsQualified(
 			return false
 		}
 
-		if data.GetParamValue() == nil {
+		if data.Value == nil {
 			log.Trace().Msgf("Query param %s value not specified for Flow: %s", data.Key, flow.GetName())
 			continue
 		}
